@@ -53,9 +53,9 @@ def oneperchar(run, fx):
     uses = {'charinfo init': False, 'charinfo base': False, 'originate': False, 'before': False, 'after': False}
     for e in calls_in(asl):
         fq = e.get('fq') or ''
-        if fq == 'graphite2::CharInfo::init' and ('m_charinfo[%s]' % idp) in asl.render(asl.N(e['obj'])):
+        if fq == 'graphite2::CharInfo::init' and ('m_charinfo[%s]' % idp) in asl.render(asl.N(e['obj']), resolve=True):
             uses['charinfo init'] = True
-        if fq == 'graphite2::CharInfo::base' and ('m_charinfo[%s]' % idp) in asl.render(asl.N(e['obj'])) and e.get('args'):
+        if fq == 'graphite2::CharInfo::base' and ('m_charinfo[%s]' % idp) in asl.render(asl.N(e['obj']), resolve=True) and e.get('args'):
             uses['charinfo base'] = asl.render(asl.strip_all_casts(e['args'][0])) == asl.f['params'][4]['n']
         for k, q in (('originate', 'graphite2::Slot::originate'), ('before', 'graphite2::Slot::before'), ('after', 'graphite2::Slot::after')):
             if fq == q and e.get('args') and asl.render(asl.strip_all_casts(e['args'][0])) == idp:
@@ -86,9 +86,20 @@ def assocdom(run, fx):
             inst = '%s(%s) in %s@%s' % (q.split('::')[-1], txt[:40], fn.q.split('::')[-1], e['ln'])
             ok = False
             why = ''
-            if a['k'] in ('CXXMemberCallExpr',) and a.get('fq') in GETTERS and not a.get('args'):
+            def closed(x, depth=0):
+                x = fn.strip_all_casts(x)
+                if x['k'] == 'CXXMemberCallExpr' and x.get('fq') in GETTERS and not x.get('args'):
+                    return 'value of another slot\'s %s()' % x['fq'].split('::')[-1]
+                if x['k'] == 'ConditionalOperator' and depth < 3:
+                    l, r = closed(x['c'][1], depth + 1), closed(x['c'][2], depth + 1)
+                    return '%s or %s' % (l, r) if l and r else None
+                if x['k'] == 'DeclRefExpr' and x.get('vid') in fn.const_init and depth < 3:
+                    return closed(fn.const_init[x['vid']], depth + 1)          # a local that stands for one expression
+                return None
+            cf = closed(a)
+            if cf:
                 ok = True
-                why = 'value of another slot\'s %s()' % a['fq'].split('::')[-1]
+                why = cf
             elif a['k'] == 'DeclRefExpr' and (fn.q, a['d'].split('::')[-1]) in ACCUMULATORS:
                 var = a['d'].split('::')[-1]
                 why = ACCUMULATORS[(fn.q, var)]
@@ -128,10 +139,12 @@ def cinfo(run, fx):
     for fn in fx.fns_named('graphite2::Segment::charinfo'):
         cond = [e for _, e in fn.elements() if e['k'] == 'ConditionalOperator']
         ok = False
+        pn = fn.f['params'][0]['n'] if fn.f.get('params') else 'index'
         for e in cond:
-            c = fn.render(fn.N(e['c'][0])).replace(' ', '')
-            if c == '(index<this->m_numCharinfo)':
-                ok = True
+            for at, pol in dom.atoms(fn, fn.N(e['c'][0]), True):
+                if dom.implies(dom.norm(fn, at, pol), (pn, '<', 'this->m_numCharinfo')) and \
+                        'm_charinfo' in fn.render(fn.N(e['c'][1])) and fn.is_null(e['c'][2]):
+                    ok = True
         inst = 'Segment::charinfo %s' % ('const' if fn.f.get('const') else 'non-const')
         if ok:
             run.held('CINFO', inst, fn.where(), 'index < m_numCharinfo ? m_charinfo + index : NULL')
